@@ -419,16 +419,50 @@ func ruleMDSCAF(c *Ctx) []Obligation {
 				}
 				return true
 			})
-			if asserted != nil && allocVar != nil && allocVar != asserted {
-				o.Verdict, o.Detail = VIOL, "the fresh node and the node asserted from `new` are held in different variables"
-			}
 			if asserted == nil {
 				o.Verdict, o.Detail = UNDECIDED, "no variable holds `new` asserted to the node type (`md, ok := new.(*T)` or `case *T: md = new`)"
 			} else if o.Verdict == OK {
+				// what a return hands back: the variable itself, or the result of a helper of the
+				// package that receives the variable and returns the node type (a fill phase)
+				origin := func(e ast.Expr) types.Object {
+					e = unparen(e)
+					if call, ok := e.(*ast.CallExpr); ok {
+						if callee := calleeOf(info, call); callee != nil && callee.Pkg() != nil && callee.Pkg().Path() == pkgASM {
+							if rs := callee.Type().(*types.Signature).Results(); rs.Len() >= 1 && isIRStructPtr(c, rs.At(0).Type()) == res {
+								for _, a := range call.Args {
+									if id, ok := unparen(a).(*ast.Ident); ok && isIRStructPtr(c, info.TypeOf(id)) == res {
+										return info.ObjectOf(id)
+									}
+								}
+							}
+						}
+						return nil
+					}
+					if id, ok := e.(*ast.Ident); ok {
+						return info.ObjectOf(id)
+					}
+					return nil
+				}
+				underNil := func(n ast.Node) bool {
+					for ; n != nil; n = pm[n] {
+						if is, ok := pm[n].(*ast.IfStmt); ok && is.Body == n && strings.ReplaceAll(exprString(is.Cond), " ", "") == newParam.Name()+"==nil" {
+							return true
+						}
+						if cc, ok := pm[n].(*ast.CaseClause); ok && len(cc.List) == 1 && exprString(cc.List[0]) == "nil" {
+							return true
+						}
+					}
+					return false
+				}
 				ast.Inspect(fd.Body, func(nd ast.Node) bool {
 					if r, ok := nd.(*ast.ReturnStmt); ok && len(r.Results) >= 1 && exprString(r.Results[0]) != "nil" {
-						if id, ok := unparen(r.Results[0]).(*ast.Ident); !ok || info.ObjectOf(id) != asserted {
-							o.Verdict, o.Detail = VIOL, "returns something other than the node asserted from `new`"
+						got := origin(r.Results[0])
+						want := asserted
+						if allocVar != nil && allocVar != asserted && underNil(r) {
+							want = allocVar // the fresh node lives in its own variable inside `if new == nil { … }`
+						}
+						if got == nil || got != want {
+							o.Verdict, o.Detail, o.Pos = VIOL, "returns something other than the node asserted from `new` (or, under `new == nil`, the fresh node)", c.pos(r.Pos())
 						}
 					}
 					return true
